@@ -303,9 +303,12 @@ fn synth_files(cfg: &Cfg, tab: &[(i64, i64)]) -> Vec<(std::path::PathBuf, Vec<(i
     let _ = std::fs::create_dir_all(&dir);
     let mut out = vec![];
     let mut mk = |name: &str, body: String, want: Vec<(i64, i64)>| {
-        let p = dir.join(format!("{}-{}.list", name, cfg.seed));
-        if std::fs::write(&p, body).is_ok() {
-            out.push((p, want));
+        // every file in both line-ending conventions (a checkout on another platform rewrites them)
+        for (tag, text) in [("", body.clone()), ("-crlf", body.replace('\n', "\r\n"))] {
+            let p = dir.join(format!("{}{}-{}.list", name, tag, cfg.seed));
+            if std::fs::write(&p, text).is_ok() {
+                out.push((p, want.clone()));
+            }
         }
     };
     let line = |t: &(i64, i64), sep: &str, tail: &str| format!("{}{}{}{}\n", t.0, sep, t.1, tail);
@@ -337,6 +340,24 @@ fn synth_files(cfg: &Cfg, tab: &[(i64, i64)]) -> Vec<(std::path::PathBuf, Vec<(i
         b.push_str(&line(t, "\t", "\t# x"));
     }
     mk("future", b, ext);
+    // 4b. future entries beyond the 32-bit limits of the timestamp (2^31 s after 1900 = 1968, 2^32 s = 7 Feb 2036) and far beyond
+    let mut ext = tab.to_vec();
+    for (k, y) in [2031i64, 2037, 2041, 2200, 9000].into_iter().enumerate() {
+        ext.push((crate::model::cal::days_from_1900(y, if k % 2 == 0 { 1 } else { 7 }, 1) * 86400, 38 + k as i64));
+    }
+    let mut b = String::from("#\tentries announced after this harness was written\n\n");
+    for t in &ext {
+        b.push_str(&line(t, "\t", "\t# x"));
+    }
+    b.push('\n');
+    mk("far-future", b, ext);
+    // 4c. the shipped layout: header comments, blank-free table, '#h' checksum line last, plus blank lines between the blocks
+    let mut b = String::from("#\tIn the following text, the symbol '#' introduces\n#\ta comment\n#\n\n#$\t 3676924800\n#\n\n#@\t3928521600\n#\n\n");
+    for t in tab {
+        b.push_str(&line(t, "\t", "\t# 1 Jan 1972"));
+    }
+    b.push_str("\n#\tthe following special comment contains the hash\n#h\t16edd0f0 3666784f 37db6bdd e74ced87 59af48f1\n\n");
+    mk("blocks", b, tab.to_vec());
     // 5. empty table with comments only
     mk("empty", "# nothing here\n\n#\n".to_string(), vec![]);
     out
